@@ -37,6 +37,20 @@ def units():
                             "decreases": "2 * (len - indx) + (pms->samplecount >= 9 ? 1 : 0)"}]},
                   "kind": "enumerated(samples per block 9, channels=%d)" % ch,
                   "trusted": ["decode_block_c: effect of the block decoders on the reader state (frame contract)", "E1 memcpy / memset models for symbolic lengths (ranges asserted)"]})
+    for lay, fn, cfile in (("IMA", "ima_write_block", "ima_adpcm.c"), ("MS", "msadpcm_write_block", "ms_adpcm.c")):
+        for ch in (1, 2):
+            pv = "pima" if lay == "IMA" else "pms"
+            U.append({"name": "%s.%s.ch%d" % ("ima" if lay == "IMA" else "msadpcm", fn, ch), "props": ["C07", "C05", "C01"], "harness": "ima_write.harness.c", "entry": "h_ima_write_block",
+                      "enforce": fn, "replace": ([] if lay == "IMA" else ["msadpcm_encode_block"]), "function": "%s:%s" % (cfile, fn),
+                      "defines": ["-DCH=%d" % ch] + (["-DLAYOUT_MS"] if lay == "MS" else []), "timeout": 900, "backend": "kissat", "cbmc_flags": ["--object-bits", "9"],
+                      "loops": {fn: [{"loop_id": 0, "assigns_locals": True,
+                                "assigns": "PV->samplecount, PV->blockcount, g_enc_calls, g_consumed, psf->error, __CPROVER_object_whole (PV->samples)".replace("PV", pv),
+                                "invariants": ("0 <= indx && indx <= len && indx % CHV == 0 && total == indx && g_consumed == indx && 0 <= PV->samplecount && PV->samplecount < 9 "
+                                               "&& 0 <= g_enc_calls && g_enc_calls <= (1 << 22) && (long) PV->samplecount * CHV == (long) vin_sc * CHV + indx - (long) g_enc_calls * 9 * CHV").replace("CHV", str(ch)).replace("PV", pv),
+                                "decreases": "len - indx"}]},
+                      "kind": "enumerated(samples per block 9, channels=%d)" % ch,
+                      "trusted": ["encode_block_c: the block encoder consumes the full block and resets the fill level (frame contract; the encoder itself has no unit)",
+                                  "E1 memcpy model for symbolic lengths (ranges and placement asserted)"]})
     for lay, fn, chs in (("PAF", "paf24_seek", (1, 2)), ("SDS", "sds_seek", (1,))):
         for ch in chs:
             U.append({"name": "%s.%s.ch%d" % (lay.lower(), fn, ch), "props": ["C06", "C08"], "harness": "blockseek.harness.c", "entry": "h_blockseek", "enforce": fn,
